@@ -16,7 +16,9 @@ CHECKS = {
              "outside the training range; Cooc.tla with the unseen tokens as its excluded set decides the token x token matrices of "
              "transform after a fit on a vocabulary corpus (deleted or masked); Protocol.tla clauses one_row_per_item / "
              "width_fixed_at_fit are validated on recorded histories of KDE, Distribution, Histogram, the matrix transformers and "
-             "the Wasserstein family (methods x input formats) for items never seen in fit.",
+             "the Wasserstein family (methods x input formats) for items never seen in fit. A fitted vectorizer is also one with a "
+             "past: Protocol.tla lifetimes (New, same-object re-fit, Reconf = set_params to another configuration) share one memo, "
+             "so every estimator kind re-fitted on another batch / re-parameterised must answer like a fresh one.",
         note="Aggregates the bounded instance spaces of C06, C09, C16, C20 plus the new Cooc-with-unseen-tokens and protocol parts.",
         tech="functional TLA+ specifications (exact label-wise oracles) + protocol trace validation for float-valued producers"),
     "C02": dict(
@@ -88,7 +90,9 @@ CHECKS = {
              "distributions inside one batch) are instantiated with random encodings carried as lists, generators and sparse "
              "matrices (explicit zeros, duplicated columns) for LOT_exact (3 input methods), LOT_sinkhorn, "
              "HeuristicLinearAlgebra, SinkhornVectorizer and ApproximateWassersteinVectorizer, cosine and euclidean; "
-             "Trace_Protocol.tla decides each recorded history with the memo keyed by measure.",
+             "Trace_Protocol.tla decides each recorded history with the memo keyed by measure. Further histories transform batches "
+             "longer than the internal chunk (300 rows inside one 288-row block) and carry the same measures through all three "
+             "input formats of one estimator kind with one explicit reference measure (Reconf + New, shared memo).",
         note="Relational oracle; generic support vectors (unique optimal plan almost surely); normalisation powers other than 1 are "
              "documented as scale dependent and outside the claim; the full-rank isometry clause is checked numerically in the "
              "thorough tier only.",
@@ -124,9 +128,12 @@ CHECKS = {
              "included, that the two agree, that no read is out of range, that the support never grows and that mass stays in the "
              "occurrence's row. The enumerated instances are replayed through the real _em_cooccurrence_iteration and compared as "
              "exact rationals. Whole pipelines (four vectorizers, n_iter 1..3, epsilon 0..0.5, n_threads) are recorded and "
-             "Trace_EM.tla decides the stated consequences (range, column sums, epsilon, support monotonicity).",
-        note="Exact step oracle for the token vectorizer with a directional flat window (V=2..3, length <= 4-5); iterated column "
-             "normalisation is only checked through its stated consequences.",
+             "Trace_EM.tla decides the stated consequences (range, column sums, epsilon, support monotonicity); Trace_EMChain.tla "
+             "decides the iteration itself: every recorded M_{k+1} must lie in the box TLC computes from the recorded M_k with the "
+             "documented step (several windows with radii, orientations, mix weights and kernels; token, timed, multiset and "
+             "n-gram families) in integer interval arithmetic. Cooc.tla Thresh is the exact oracle for n_iter=0, epsilon>0.",
+        note="Exact single-step oracle for the token vectorizer (V=2..3, length <= 4-5); the chain check is sound by construction "
+             "(interval bounds) and as sharp as the conditioning allows (observed box widths: median 2e-5, max 4e-3).",
         tech="algorithmic + declarative TLA+ specification of the EM step, TLC enumeration replayed; trace validation of pipelines"),
     "C12": dict(
         cat="model_checking", ref="5 (C12), 4.17",
@@ -134,7 +141,8 @@ CHECKS = {
              "(duplicates give duplicate rows, permutations permute, concatenation = concatenated transforms) whatever knobs "
              "(memory_size, chunk sizes, thread counts) were set in between; TLC generates fit->transform* histories over a pool "
              "of 4 items (batches of <= 3 with repetitions) which are replayed into 19 row-wise estimator kinds and decided by "
-             "Trace_Protocol.tla.",
+             "Trace_Protocol.tla. Hand-written histories add empty items, batches that do not fill whole internal blocks / chunks "
+             "(7 rows with 4-row blocks, 300 rows with a 288-row block and 256-row chunks) and an outlier batch mate.",
         note="Row classes by tolerant equality (classes only merge); OS thread schedules are sampled through pool sizes, not "
              "enumerated.",
         tech="TLA+ protocol specification + TLC-generated histories + trace validation"),
@@ -167,7 +175,9 @@ CHECKS = {
              "masking; TLC checks on every instance that contraction preserves reachability, shortens walks by exactly the "
              "removed nodes, and that on path graphs the entry equals the sequence co-occurrence definition. Instances (forests "
              "of 1-2 trees on <= 4-5 nodes, all parent functions, 3 labels, radius 1-3, 3 kernels) are replayed through "
-             "fit_transform / fit().transform; path graphs also through TokenCooccurrenceVectorizer.",
+             "fit_transform / fit().transform; path graphs also through TokenCooccurrenceVectorizer. Kernel offset / "
+             "normalisation, adjacency matrices of every sparse format and integer / boolean dtype, forests whose every node is "
+             "masked and estimators with a past are part of the instance space.",
         note="Seeded sample of the instance space per run (600 quick / 15000 thorough); unit edge weights.",
         tech="functional TLA+ specification + TLC per-instance evaluation with lemmas, replayed into the code"),
     "C16": dict(
